@@ -898,7 +898,8 @@ func (ls *LanceroSource) distributeData(buffersMsg BuffersChanType) *dataBlock {
 		block.segments[channelIndex] = seg
 		block.nSamp = len(data)
 	}
-	ls.nextFrameNum += FrameIndex(framesUsed)
+	// Frames estimated as lost shift this block's numbering and all later numbering alike.
+	ls.nextFrameNum += FrameIndex(droppedFrames) + FrameIndex(framesUsed)
 	ls.previousLastSampleTime = lastSampleTime
 	if ls.heartbeats != nil {
 		mb := float64(totalBytes) / 1e6
